@@ -217,4 +217,134 @@ theorem ip_step (ps : List LayerInfo) (o : Ip4) (os : List AnyObj) (hi : o.Inv) 
     exact ip4_protocolFor_obj ps y r o hl2.2
   | bad => simp only [LinkAll, hnx] at hlink
 
+/-! ### IPSecAH -/
+
+theorem ah_view_of (b : Bool) (a a' : Ah) (h1 : a'.spi = a.spi) (h2 : a'.seq = a.seq) (h3 : a'.icv = a.icv)
+    (hp : b = true → a'.nextHeader = a.nextHeader) : layerView b (.ip (.ah a')) = layerView b (.ip (.ah a)) := by
+  cases b with
+  | false => simp [layerView, AnyObj.info, Ip.info, Ah.fields, Fields.view, h1, h2, h3]
+  | true => simp [layerView, AnyObj.info, Ip.info, Ah.fields, Fields.view, h1, h2, h3, hp rfl]
+
+theorem ah_nextHeaderFor_obj (ps : List LayerInfo) (y : AnyObj) (r : List AnyObj) (a : Ah) (hy : ProtoTier y) :
+    Tags.classOfIpProto (Ah.nextHeaderFor (cxOf ps (y :: r)) a) = some y.info.1 := by
+  have ht := protoTier_roundtrip y hy
+  unfold Ah.nextHeaderFor
+  rw [cxOf_head_obj]
+  have hne : (Tags.ipProtoOfPduType (Tags.pduTypeOf y.info.1) != 255) = true := bne_iff_ne.mpr ht.1
+  simp only [hne, if_true, Nat.mod_eq_of_lt (Nat.lt_of_lt_of_le ht.2.1 (by decide : 256 ≤ 256))]
+  exact ht.2.2.1
+
+/-- **IPSecAH step** (always below IP / IPv6, which cut padding off: nothing follows the region) -/
+theorem ah_step (ps : List LayerInfo) (a : Ah) (os : List AnyObj) (hi : a.Inv)
+    (hside : Side (.ip (.ah a)) os) (hlink : LinkAll (.ip (.ah a)) os) (region io : Bytes)
+    (hlen : region.length = a.hdr + sizeOfStack os) (hio : region.drop a.hdr = io)
+    (hnil : os = [] → io = []) (hraw : ∀ p, os = [.raw p] → io = p) (hpos : ∀ y r, nextA os = .obj y r → 0 < io.length) :
+    ∃ out x' inner, a.write (cxOf ps os) region = .ok out ∧ out.length = region.length ∧
+      parseOne "IPSecAH" out = .ok (x', inner) ∧
+      layerView false x' = layerView false (.ip (.ah a)) ∧
+      StepInnerA (.ip (.ah a)) os io 0 x' inner := by
+  have hrp : a.Repr := hside
+  rcases ah_reparse (cxOf ps os) a hi hrp region (by omega) with ⟨out, hw, hp⟩
+  have hol : out.length = region.length := by
+    have hw2 := ah_write_eq (cxOf ps os) a hi region (by omega)
+    rw [hw] at hw2
+    injection hw2 with hw2
+    rw [hw2]
+    have hb := ah_headerBytes_length (Ah.written (cxOf ps os) a) hi.reserved
+    have hh : a.hdr = 12 + a.icv.length := rfl
+    simp only [List.length_append, hb, List.length_drop]; omega
+  rw [hio] at hp
+  refine ⟨out, _, _, hw, hol, parseOne_ah _ _ _ hp, ah_view_of false _ _ rfl rfl rfl (fun h => by cases h), ?_⟩
+  have hiol : io.length = region.length - a.hdr := by rw [← hio]; simp
+  unfold StepInnerA
+  have hcut : cut (.ip (.ah a)) 0 = 0 := rfl
+  rw [hcut]
+  simp only [List.replicate_zero, List.append_nil]
+  cases hnx : nextA os with
+  | none =>
+    have hos := nextA_none hnx; subst hos
+    have hio0 := hnil rfl; subst hio0
+    have hk : ¬ region.length - a.hdr > 0 := by simp only [List.length_nil] at hiol; omega
+    left; rw [if_neg hk]; exact ⟨rfl, rfl⟩
+  | raw p =>
+    have hos := nextA_raw hnx; subst hos
+    have hiop := hraw p rfl; subst hiop
+    have hl2 : Tags.classOfIpProto a.nextHeader = none := by simpa only [LinkAll, hnx] using hlink
+    have hpr : (Ah.written (cxOf ps [.raw io]) a).nextHeader = a.nextHeader :=
+      ah_nextHeader_kept _ a _ (cxOf_head_raw ps io) raw_no_proto
+    refine ⟨ah_view_of _ _ _ rfl rfl rfl (fun _ => hpr), ?_⟩
+    by_cases hk : region.length - a.hdr > 0
+    · right
+      rw [if_pos hk]
+      simp only [Ah.dispatch, hpr, hl2]
+    · left
+      rw [if_neg hk]
+      exact ⟨rfl, List.eq_nil_of_length_eq_zero (by omega)⟩
+  | obj y r =>
+    have hos := (nextA_obj hnx).1; subst hos
+    have hl2 : ProtoTier y := by simpa only [LinkAll, hnx] using hlink
+    have := hpos y r hnx
+    have hk : region.length - a.hdr > 0 := by omega
+    rw [if_pos hk]
+    refine ⟨⟨false, ?_⟩, .inl trivial⟩
+    have hd : Tags.classOfIpProto (Ah.written (cxOf ps (y :: r)) a).nextHeader = some y.info.1 :=
+      ah_nextHeaderFor_obj ps y r a hl2
+    simp only [Ah.dispatch, hd]
+  | bad => simp only [LinkAll, hnx] at hlink
+
+/-! ### IPSecESP -/
+
+/-- a class that hands everything behind its header to RawPDU: the inner-PDU decision at the end of a stack -/
+theorem leaf_stepInner (x x' : AnyObj) (os : List AnyObj) (io : Bytes) (inner : Inner) (hc : cut x 0 = 0)
+    (hlink : nextA os = .none ∨ ∃ p, nextA os = .raw p)
+    (hinner : inner = if io.length > 0 then .raw io else .none)
+    (hview : ∀ b, layerView b x' = layerView b x)
+    (hnil : os = [] → io = []) (hraw : ∀ p, os = [.raw p] → io = p) : StepInnerA x os io 0 x' inner := by
+  unfold StepInnerA
+  rw [hc]
+  simp only [List.replicate_zero, List.append_nil]
+  rcases hlink with hnx | ⟨p, hnx⟩
+  · rw [hnx]
+    have hio0 := hnil (nextA_none hnx); subst hio0
+    left; exact ⟨by rw [hinner]; rfl, rfl⟩
+  · rw [hnx]
+    have hiop := hraw p (nextA_raw hnx); subst hiop
+    refine ⟨hview _, ?_⟩
+    by_cases hk : io.length > 0
+    · right; rw [hinner, if_pos hk]
+    · left; rw [hinner, if_neg hk]; exact ⟨rfl, List.eq_nil_of_length_eq_zero (by omega)⟩
+
+/-- the link of a class that only carries RawPDU -/
+theorem leaf_link {x : AnyObj} {os : List AnyObj}
+    (h : match nextA os with | .none => True | .raw _ => True | _ => False) :
+    nextA os = .none ∨ ∃ p, nextA os = .raw p := by
+  cases hnx : nextA os with
+  | none => exact .inl rfl
+  | raw p => exact .inr ⟨p, rfl⟩
+  | obj y r => rw [hnx] at h; exact h.elim
+  | bad => rw [hnx] at h; exact h.elim
+
+/-- **IPSecESP step** -/
+theorem esp_step (ps : List LayerInfo) (e : Esp) (os : List AnyObj) (hi : e.Inv)
+    (hlink : LinkAll (.ip (.esp e)) os) (region io : Bytes)
+    (hlen : region.length = 8 + sizeOfStack os) (hio : region.drop 8 = io)
+    (hnil : os = [] → io = []) (hraw : ∀ p, os = [.raw p] → io = p) :
+    ∃ out x' inner, e.write (cxOf ps os) region = .ok out ∧ out.length = region.length ∧
+      parseOne "IPSecESP" out = .ok (x', inner) ∧
+      layerView false x' = layerView false (.ip (.esp e)) ∧
+      StepInnerA (.ip (.esp e)) os io 0 x' inner := by
+  rcases esp_reparse (cxOf ps os) e hi region (by omega) with ⟨out, hw, hp⟩
+  have hol : out.length = region.length := by
+    have hw2 := writeAtStart_eq region e.headerBytes (by rw [esp_headerBytes_length]; omega)
+    have hw3 : e.write (cxOf ps os) region = writeAtStart region e.headerBytes := rfl
+    rw [hw3, hw2] at hw
+    injection hw with hw
+    rw [← hw]
+    simp only [List.length_append, esp_headerBytes_length, List.length_drop]; omega
+  rw [hio] at hp
+  have hiol : io.length = region.length - 8 := by rw [← hio]; simp
+  refine ⟨out, _, _, hw, hol, parseOne_esp _ _ _ hp, rfl, ?_⟩
+  apply leaf_stepInner _ _ os io _ rfl (leaf_link (x := .ip (.esp e)) hlink) _ (fun _ => rfl) hnil hraw
+  rw [hiol]
+
 end Tins.Wire.ChainAll
